@@ -755,9 +755,14 @@ def model_quantize(model,
             ema_freeze_delay if ema_freeze_delay else None)
       else:
         q_name = "Q" + layer["class_name"]
+      # Separable layers have a depthwise and a pointwise kernel.
+      if layer["class_name"] in ["SeparableConv1D", "SeparableConv2D"]:
+        kernel_name = "depthwise_quantizer"
+      else:
+        kernel_name = "kernel_quantizer"
       # Needs to add kernel/bias quantizers.
       kernel_quantizer = get_config(
-          quantizer_config, layer, q_name, "kernel_quantizer")
+          quantizer_config, layer, q_name, kernel_name)
 
       if layer_config["use_bias"]:
         bias_quantizer = get_config(
@@ -781,7 +786,10 @@ def model_quantize(model,
 
       layer["class_name"] = q_name
 
-      layer_config["kernel_quantizer"] = kernel_quantizer
+      layer_config[kernel_name] = kernel_quantizer
+      if kernel_name == "depthwise_quantizer":
+        layer_config["pointwise_quantizer"] = get_config(
+            quantizer_config, layer, q_name, "pointwise_quantizer")
       layer_config["bias_quantizer"] = bias_quantizer
 
       # If activation is present, add activation here.
